@@ -465,6 +465,11 @@ func parseTraversalStep(nativeStep hcl.Traverser, from inputTokens) (before inpu
 			key := newNumber(valToken)
 			step.key = children.Append(key)
 			children.AppendUnstructuredTokens(valAfter.Tokens())
+		default:
+			// A key that is neither a string nor a number (the keywords
+			// true, false and null) has no structured representation, but
+			// its tokens must still be retained.
+			children.AppendUnstructuredTokens(keyTokens.Tokens())
 		}
 
 		children.AppendUnstructuredTokens(cBrack.Tokens())
